@@ -572,7 +572,7 @@ class AV(object):
         return (self.kind, self.dtype, self.origin, self.shape, self.sym,
                 tuple(sorted(self.alg.items(), key=lambda kv: kv[0])), self.sign, self.mono,
                 None if self.const is _NOCONST else repr(self.const), self.expo,
-                None if self.items is None else tuple(i.key() for i in self.items),
+                None if self.items is None else tuple((None if i is None else i.key()) for i in self.items),
                 None if self.elem is None else self.elem.key(), self.obj, self.tags, self.indef,
                 self.dmust, self.dmay, self.f0, self.ext, self.note if isinstance(self.note, str) and self.note.startswith("acc") else None,
                 None if self.dvals is None else tuple(sorted((k, v.key()) for k, v in self.dvals.items())),
@@ -756,6 +756,8 @@ def _join_ref(a, b, kind):
 
 
 def weaken_av(v, pc):
+    if v is None:
+        return None        # an open slice bound held in a slice value
     """Apply implicit-flow weakening by the program-counter class map pc: atom -> Alg."""
     if not pc:
         return v
